@@ -701,6 +701,9 @@ package sbom
 //@   props C04, C05
 //@   assigns \nothing
 //@   ensures [C05:identifier:nonEmpty] result != ""
+//@   ensures [C05:identifier:prefix] hasPrefix(result, "protobom")
+//@   invariant L0: len(knownPrefixes) >= 1 && knownPrefixes[0] == "protobom" && arr(knownPrefixes) != arr(validPrefixes) && fresh(arr(knownPrefixes)) && (cap(validPrefixes) == 0 || fresh(arr(validPrefixes)))
+//@   invariant L1: len(knownPrefixes) >= 1 && knownPrefixes[0] == "protobom" && arr(knownPrefixes) != arr(validPrefixes) && fresh(arr(knownPrefixes)) && (cap(validPrefixes) == 0 || fresh(arr(validPrefixes)))
 
 // a switch over the enum: state independent; contracts use its shadow function under quantifiers
 //@ func Edge_Type.ToSPDX2
